@@ -49,8 +49,16 @@ class ScriptSpawn(SpawnBase):
     def snap(self):
         return (self._before.getvalue(), self._buffer.getvalue())
 
-    def restore(self, bef, buf):
+    def aliased(self):
+        """Do the two buffers share one object?  (Part of the state: a restore into two
+        independent objects would silently repair such a bug.)"""
+        return self._before is self._buffer
+
+    def restore(self, bef, buf, aliased=False):
         self._before = self.buffer_type()
         self._before.write(bef)
-        self._buffer = self.buffer_type()
-        self._buffer.write(buf)
+        if aliased:
+            self._buffer = self._before
+        else:
+            self._buffer = self.buffer_type()
+            self._buffer.write(buf)
